@@ -10,11 +10,15 @@ package sstls
 // txtar.Format are executed for real.
 
 import (
+	"crypto"
+	"crypto/ecdsa"
+	"crypto/elliptic"
 	"crypto/tls"
 	"crypto/x509"
 	"encoding/pem"
 	"errors"
 	"io/fs"
+	"math/big"
 	"net"
 	"os"
 	"time"
@@ -40,6 +44,11 @@ import (
 //verif:stub github.com/magisterquis/curlrevshell/lib/sstls.GenerateSelfSignedCertificate stubGenerate
 //verif:stub (time.Time).Format stubTimeFormat
 //verif:stub encoding/pem.Decode stubPemDecode
+//verif:stub crypto/x509.ParsePKCS8PrivateKey stubParsePKCS8
+//verif:stub crypto/x509.ParseECPrivateKey stubParseECKey
+//verif:stub (*crypto/ecdsa.PublicKey).Equal stubECPubEqual
+//verif:stub (*crypto/ecdsa.PrivateKey).Equal stubECPrivEqual
+//verif:stub (*crypto/ecdsa.PrivateKey).Public stubECPublic
 
 type writeRec struct {
 	name string
@@ -178,13 +187,16 @@ func stubX509KeyPair(certPEM, keyPEM []byte) (tls.Certificate, error) {
 	if pairFails {
 		return tls.Certificate{}, errors.New("tls: failed to find any PEM data")
 	}
+	if !keyMatches {
+		return tls.Certificate{}, errors.New("tls: private key does not match public key")
+	}
 	return tls.Certificate{Certificate: [][]byte{{1}, {7}}}, nil // a chain of two: leaf first
 }
 func stubParseCertificate(der []byte) (*x509.Certificate, error) {
 	if parseFails {
 		return nil, errors.New("x509: malformed certificate")
 	}
-	c := &x509.Certificate{Raw: append([]byte{}, der...)}
+	c := &x509.Certificate{Raw: append([]byte{}, der...), PublicKey: &ecdsa.PublicKey{Curve: theCurve}}
 	if len(der) == 1 && der[0] == 1 {
 		theLeaf = c
 	}
@@ -196,24 +208,75 @@ func stubGenerate(subject string, dnsNames []string, ipAddresses []net.IP, lifes
 		return nil, nil, tls.Certificate{}, errors.New("generating key: entropy")
 	}
 	genCert = pemish(2)
-	genKey = pemish(2)
+	genKey = pemishKind(2, 'K')
 	return genCert, genKey, tls.Certificate{Certificate: [][]byte{{2}}, Leaf: &x509.Certificate{}}, nil
 }
 
 // stubPemDecode: encoding/pem's contract: the first PEM block and the rest, or a nil block and
 // the whole input when no PEM data is found.
 func stubPemDecode(data []byte) (*pem.Block, []byte) {
-	if nondetBool() {
+	if pemFails {
 		return nil, data
 	}
+	if len(data) > 0 && data[0] == 'K' {
+		pairCalls++ // the key member has been handed to the crypto library
+		pairKey = append([]byte{}, data...)
+		return &pem.Block{Type: "PRIVATE KEY", Bytes: []byte{9}}, nil
+	}
+	pairCert = append([]byte{}, data...)
 	return &pem.Block{Type: "CERTIFICATE", Bytes: []byte{1}}, nil
 }
-func stubTimeFormat(t time.Time, layout string) string { return "T" }
+
+// Key material is opaque to the solver; what matters is whether the private key in the cache
+// goes with the certificate's public key.  That fact is one symbolic boolean, keyMatches,
+// which every library routine able to establish it reports: tls.X509KeyPair fails on a
+// mismatch (its documented behaviour), the Equal methods return it.
+var (
+	keyMatches  bool
+	pemFails    bool
+	pkcs8Fails  bool
+	equalCalls  int
+	stubPrivKey *ecdsa.PrivateKey
+)
+
+type stubCurve struct{}
+
+func (stubCurve) Params() *elliptic.CurveParams                      { return nil }
+func (stubCurve) IsOnCurve(x, y *big.Int) bool                       { return true }
+func (stubCurve) Add(x1, y1, x2, y2 *big.Int) (*big.Int, *big.Int)   { return nil, nil }
+func (stubCurve) Double(x1, y1 *big.Int) (*big.Int, *big.Int)        { return nil, nil }
+func (stubCurve) ScalarMult(x, y *big.Int, k []byte) (a, b *big.Int) { return nil, nil }
+func (stubCurve) ScalarBaseMult(k []byte) (x, y *big.Int)            { return nil, nil }
+
+var theCurve elliptic.Curve = stubCurve{}
+
+func stubParsePKCS8(der []byte) (any, error) {
+	if pkcs8Fails {
+		return nil, errors.New("x509: failed to parse private key")
+	}
+	stubPrivKey = &ecdsa.PrivateKey{PublicKey: ecdsa.PublicKey{Curve: theCurve}}
+	return stubPrivKey, nil
+}
+func stubParseECKey(der []byte) (*ecdsa.PrivateKey, error) {
+	k, err := stubParsePKCS8(der)
+	if err != nil {
+		return nil, err
+	}
+	return k.(*ecdsa.PrivateKey), nil
+}
+func stubECPubEqual(pub *ecdsa.PublicKey, x crypto.PublicKey) bool  { equalCalls++; return keyMatches }
+func stubECPrivEqual(k *ecdsa.PrivateKey, x crypto.PrivateKey) bool { equalCalls++; return keyMatches }
+func stubECPublic(k *ecdsa.PrivateKey) crypto.PublicKey             { return &k.PublicKey }
+func stubTimeFormat(t time.Time, layout string) string              { return "T" }
 
 // pemish: n symbolic bytes forming newline-terminated lines none of which is a txtar marker
-func pemish(n int) []byte {
-	b := nondetBytes(n, 0)
-	for i := range b {
+func pemish(n int) []byte { return pemishKind(n, 'C') }
+
+// pemishKind: the first byte tells the stubs which kind of PEM text this stands for
+// ('C' certificate, 'K' private key).
+func pemishKind(n int, kind byte) []byte {
+	b := append([]byte{kind}, nondetBytes(n, 0)...)
+	for i := 1; i < len(b); i++ {
 		verifAssume(b[i] != '\n' && b[i] != '-' && b[i] != '\r')
 	}
 	return append(b, '\n')
@@ -223,7 +286,7 @@ func pemish(n int) []byte {
 func HarnessC08Get() {
 	readClass = nondetChoice(3)
 	shape := nondetChoice(4) // archive shape when readable: 0 complete, 1 cert missing, 2 key missing, 3 garbage
-	c, k := pemish(2), pemish(2)
+	c, k := pemish(2), pemishKind(2, 'K')
 	switch shape {
 	case 0:
 		fileData = txtar.Format(&txtar.Archive{Comment: []byte("Generated T"), Files: []txtar.File{{Name: "cert", Data: c}, {Name: "key", Data: k}}})
@@ -237,6 +300,7 @@ func HarnessC08Get() {
 	mkdirFails, writeFails = nondetBool(), nondetBool()
 	dangling = readClass == 1 && nondetBool()
 	pairFails, parseFails, genFails = nondetBool(), nondetBool(), nondetBool()
+	keyMatches, pkcs8Fails, pemFails = nondetBool(), nondetBool(), nondetBool()
 	useCache := nondetBool()
 	certFile := ""
 	if useCache {
@@ -251,10 +315,22 @@ func HarnessC08Get() {
 		return
 	}
 	verifAssert(reads == 1, "C08.cache-read-once")
-	loadOK := readClass == 0 && shape == 0 && !pairFails && !parseFails
+	if readClass == 0 && shape == 0 && !keyMatches {
+		// a cache whose key does not go with its certificate (a damaged key member) is never served
+		ok := err != nil
+		if verifCanary() {
+			ok = err == nil
+		}
+		verifAssert(ok, "C08.mismatched-key-is-never-served")
+	}
+	loadOK := readClass == 0 && shape == 0 && err == nil
+	mustLoad := readClass == 0 && shape == 0 && !pairFails && !parseFails && !pkcs8Fails && !pemFails && keyMatches
+	if mustLoad {
+		verifAssert(err == nil, "C08.intact-cache-is-loaded")
+	}
 	switch {
 	case loadOK:
-		verifAssert(err == nil && len(cert.Certificate) == 2 && cert.Certificate[0][0] == 1, "C08.cached-certificate-is-served")
+		verifAssert(len(cert.Certificate) >= 1 && cert.Certificate[0][0] == 1, "C08.cached-certificate-is-served")
 		// the parsed leaf (from which the advertised fingerprint is computed) is the FIRST certificate,
 		// the one crypto/tls presents
 		verifAssert(cert.Leaf != nil && len(cert.Leaf.Raw) == 1 && cert.Leaf.Raw[0] == 1, "C05.leaf-is-the-served-certificate")
@@ -302,9 +378,10 @@ func HarnessC08Get() {
 // HarnessC08RoundTrip: what one run saves is what the next run feeds to X509KeyPair.
 func HarnessC08RoundTrip() {
 	n := verifParam("n")
-	c, k := pemish(n), pemish(n)
+	c, k := pemish(n), pemishKind(n, 'K')
 	writes = nil
 	readClass, dangling = 1, false // nothing at the cache path yet
+	keyMatches, pairFails, parseFails, pkcs8Fails, pemFails = true, false, false, false, false
 	err := SaveCertificate("d/cert.txtar", c, k)
 	verifAssert(err == nil && len(writes) == 1, "C08.rt.saved")
 	if len(writes) != 1 {
@@ -314,7 +391,7 @@ func HarnessC08RoundTrip() {
 	readClass = 0
 	pairCalls = 0
 	_, err = LoadCachedCertificate("d/cert.txtar")
-	verifAssert(err == nil && pairCalls == 1, "C08.rt.loaded")
+	verifAssert(err == nil && pairCalls >= 1, "C08.rt.loaded")
 	verifAssert(string(pairCert) == string(c) && string(pairKey) == string(k), "C08.rt.same-key-material-after-restart")
 	verifReach("C08.rt.end")
 }
@@ -323,9 +400,10 @@ func HarnessC08RoundTrip() {
 // X509KeyPair a prefix of the certificate member and a prefix of the key member.
 func HarnessC08Torn() {
 	n := verifParam("n")
-	c, k := pemish(n), pemish(n)
+	c, k := pemish(n), pemishKind(n, 'K')
 	full := txtar.Format(&txtar.Archive{Comment: []byte("Generated T"), Files: []txtar.File{{Name: "cert", Data: c}, {Name: "key", Data: k}}})
 	cut := nondetLen(len(full))
+	keyMatches, pairFails, parseFails, pkcs8Fails, pemFails = true, false, false, false, false
 	fileData = full[:cut]
 	readClass = 0
 	pairCalls = 0
